@@ -799,3 +799,159 @@ func (f *fctx) syncCase(s snap) tcase {
 	}
 	return tc
 }
+
+// ---------- shape mutations: every dimension of a virtual-channel proposal varied on its own ----------
+
+// dims draws the dimensions of a proposal: a common size n, from which each dimension deviates
+// independently (so that consistent shapes of every size and single deviations are both frequent).
+func (f *fctx) dims(lo, hi int) (n int, pick func(lo, hi int) int) {
+	n = lo + f.r.Intn(hi-lo+1)
+	pick = func(lo, hi int) int {
+		if f.r.Intn(5) < 3 && n >= lo && n <= hi {
+			return n
+		}
+		return lo + f.r.Intn(hi-lo+1)
+	}
+	return
+}
+
+func (f *fctx) shapeImap(l int) []channel.Index {
+	im := make([]channel.Index, l)
+	for i := range im {
+		im[i] = channel.Index(f.r.Intn(4))
+	}
+	if l > 0 && f.r.Intn(3) == 0 { // a permutation prefix: entries distinct
+		p := f.r.Perm(4)
+		for i := range im {
+			im[i] = channel.Index(p[i])
+		}
+	}
+	return im
+}
+
+// shapeBals: balances of a virtual channel with np participants, every entry small and (if the parent
+// can afford it) positive.
+func (f *fctx) shapeBals(cur *channel.State, np int) channel.Balances {
+	out := make(channel.Balances, len(cur.Balances))
+	for a := range out {
+		lim := new(big.Int).Set(cur.Balances[a][0])
+		if cur.Balances[a][1].Cmp(lim) < 0 {
+			lim.Set(cur.Balances[a][1])
+		}
+		lim.Rsh(lim, 3)
+		out[a] = make([]channel.Bal, np)
+		for p := range out[a] {
+			out[a][p] = big.NewInt(0)
+			if lim.Sign() > 0 {
+				out[a][p] = new(big.Int).Add(new(big.Int).Rand(f.r, lim), big.NewInt(1))
+			}
+		}
+	}
+	return out
+}
+
+// owner: the participant of the parent that index map entry p points to, the peer where it points nowhere.
+func (f *fctx) owner(imap []channel.Index, p int) int {
+	if p < len(imap) && int(imap[p]) < 2 {
+		return int(imap[p])
+	}
+	return f.peer()
+}
+
+func validShape(nParts, nState int, imap []channel.Index) bool {
+	if nParts != nState || nState != len(imap) {
+		return false
+	}
+	seen := map[channel.Index]bool{}
+	for _, q := range imap {
+		if q >= 2 || seen[q] {
+			return false
+		}
+		seen[q] = true
+	}
+	return true
+}
+
+// vfundShape: a correctly signed funding proposal whose parameter participants, state participants
+// (= decoded signatures) and index map (length, entries) are drawn independently of the parent.
+func (f *fctx) vfundShape(cur *channel.State) tcase {
+	tc := tcase{class: "vf-shape", accept: true, site: "client.handleVirtualChannelFundingProposal"}
+	for {
+		_, pick := f.dims(2, 4)
+		nParts, nState, imap := pick(2, 4), pick(1, 4), f.shapeImap(pick(0, 4))
+		if validShape(nParts, nState, imap) {
+			continue // would wait 10 s for its twin: the vf-valid class
+		}
+		vp := f.vparams(nParts, true)
+		vb := f.shapeBals(cur, nState)
+		vs := f.vstate(vp, vb, false)
+		signers := make([]*simwallet.Account, nState)
+		for i := range signers {
+			signers[i] = f.vaccs[i]
+		}
+		s := next(cur)
+		for a := range vb {
+			for p := range vb[a] {
+				q := f.owner(imap, p)
+				s.Balances[a][q] = new(big.Int).Sub(s.Balances[a][q], vb[a][p])
+			}
+		}
+		s.Locked = append(s.Locked, *channel.NewSubAlloc(vp.ID(), vb.Sum(), imap))
+		tc.msg = &client.VirtualChannelFundingProposalMsg{ChannelUpdateMsg: f.signedUpd(s, f.peer()),
+			Initial: channel.SignedState{Params: vp, State: vs, Sigs: f.vsigs(vs, signers)}, IndexMap: imap}
+		tc.class = "vf-shape"
+		return tc
+	}
+}
+
+// vsettleShapeContext restores an Acting channel that locks funds for a virtual channel under an
+// index map of arbitrary shape, and returns a correctly signed settlement proposal whose dimensions
+// are drawn independently.
+func (f *fctx) vsettleShape() tcase {
+	tc := tcase{accept: true, site: "client.handleVirtualChannelSettlementProposal"}
+	for {
+		_, pick := f.dims(2, 4)
+		nParts, nState, imap := pick(2, 4), pick(1, 4), f.shapeImap(pick(0, 4))
+		if validShape(nParts, nState, imap) {
+			continue
+		}
+		vp := f.vparams(nParts, true)
+		cur := f.genState(f.r.Intn(2), false)
+		sa := f.randSubAlloc()
+		sa.ID, sa.IndexMap = vp.ID(), imap
+		k := f.r.Intn(len(cur.Locked) + 1)
+		cur.Locked = append(cur.Locked[:k:k], append([]channel.SubAlloc{sa}, cur.Locked[k:]...)...)
+		f.restore(channel.Acting, channel.Transaction{}, f.fullTx(cur))
+		// final balances: the locked amounts split among nState participants
+		fb := make(channel.Balances, len(sa.Bals))
+		for a := range fb {
+			fb[a] = make([]channel.Bal, nState)
+			rem := new(big.Int).Set(sa.Bals[a])
+			for p := 0; p < nState; p++ {
+				v := rem
+				if p < nState-1 {
+					v = new(big.Int).Rand(f.r, new(big.Int).Add(rem, big.NewInt(1)))
+				}
+				fb[a][p] = new(big.Int).Set(v)
+				rem = new(big.Int).Sub(rem, v)
+			}
+		}
+		fs := f.vstate(vp, fb, true)
+		signers := make([]*simwallet.Account, nState)
+		for i := range signers {
+			signers[i] = f.vaccs[i]
+		}
+		s := next(cur)
+		for a := range fb {
+			for p := range fb[a] {
+				q := f.owner(imap, p)
+				s.Balances[a][q] = new(big.Int).Add(s.Balances[a][q], fb[a][p])
+			}
+		}
+		s.Locked = append(s.Locked[:k:k], s.Locked[k+1:]...)
+		tc.msg = &client.VirtualChannelSettlementProposalMsg{ChannelUpdateMsg: f.signedUpd(s, f.peer()),
+			Final: channel.SignedState{Params: vp, State: fs, Sigs: f.vsigs(fs, signers)}}
+		tc.class = "vs-shape"
+		return tc
+	}
+}
